@@ -39,6 +39,7 @@ func (m *Mutex) Lock() {
 	o := m.sync(s)
 	s.point("mutex.Lock", o, func() bool { return !m.held })
 	m.held = true
+	s.acq(o)
 	m.owner = s.cur
 	if s.cur != nil {
 		s.cur.xl++
@@ -59,6 +60,7 @@ func (m *Mutex) Unlock() {
 	if !m.held {
 		panic("sync: unlock of unlocked mutex")
 	}
+	s.rel(&m.st)
 	m.held = false
 	if m.owner != nil && m.owner.xl > 0 {
 		m.owner.xl--
@@ -97,6 +99,7 @@ func (m *RWMutex) Lock() {
 	o := m.sync(s)
 	s.point("rwmutex.Lock", o, func() bool { return !m.w && m.r == 0 })
 	m.w = true
+	s.acq(o)
 	m.owner = s.cur
 	if s.cur != nil {
 		s.cur.xl++
@@ -116,6 +119,7 @@ func (m *RWMutex) Unlock() {
 	if !m.w {
 		panic("sync: Unlock of unlocked RWMutex")
 	}
+	s.rel(&m.st)
 	m.w = false
 	if m.owner != nil && m.owner.xl > 0 {
 		m.owner.xl--
@@ -138,6 +142,7 @@ func (m *RWMutex) RLock() {
 	o := m.sync(s)
 	s.point("rwmutex.RLock", o, func() bool { return !m.w })
 	m.r++
+	s.acq(o)
 	if s.cur != nil {
 		s.cur.rl++
 	}
@@ -156,6 +161,7 @@ func (m *RWMutex) RUnlock() {
 	if m.r <= 0 {
 		panic("sync: RUnlock of unlocked RWMutex")
 	}
+	s.rel(&m.st)
 	m.r--
 	if s.cur != nil && s.cur.rl > 0 {
 		s.cur.rl--
@@ -208,6 +214,7 @@ func (c *Cond) Wait() {
 	c.waiters = append(c.waiters, tok)
 	c.L.Unlock()
 	s.point("cond.Wait", o, func() bool { return *tok == 1 })
+	s.acq(o)
 	c.L.Lock()
 }
 
@@ -220,7 +227,7 @@ func (c *Cond) Signal() {
 	if reaping {
 		return
 	}
-	c.sync(s)
+	s.rel(c.sync(s))
 	if n := len(c.waiters); n > 0 {
 		// which waiter is woken is unspecified: explorer-owned (default: the oldest)
 		i := Choose(KEnv, n)
@@ -238,7 +245,7 @@ func (c *Cond) Broadcast() {
 	if reaping {
 		return
 	}
-	c.sync(s)
+	s.rel(c.sync(s))
 	for _, w := range c.waiters {
 		*w = 1
 	}
@@ -268,7 +275,9 @@ func (g *WaitGroup) Add(d int) {
 	if reaping {
 		return
 	}
-	g.sync(s)
+	if o := g.sync(s); d < 0 {
+		s.rel(o)
+	}
 	g.v += d
 	if g.v < 0 {
 		panic("sync: negative WaitGroup counter")
@@ -295,10 +304,12 @@ func (g *WaitGroup) Wait() {
 	o := g.sync(s)
 	s.point("wg.Wait", o, nil)
 	if g.v == 0 {
+		s.acq(o)
 		return
 	}
 	g.w++
 	s.point("wg.Wait(blocked)", o, func() bool { return g.w == 0 })
+	s.acq(o)
 	if g.v != 0 {
 		panic("sync: WaitGroup is reused before previous Wait has returned")
 	}
@@ -329,14 +340,16 @@ func (o *Once) Do(f func()) {
 	}
 	ob := s.touch(&o.st)
 	if o.state == 2 {
+		s.acq(ob)
 		return
 	}
 	if o.state == 1 {
 		s.point("once.Do(wait)", ob, func() bool { return o.state == 2 })
+		s.acq(ob)
 		return
 	}
 	o.state = 1
-	defer func() { o.state = 2 }()
+	defer func() { o.state = 2; s.rel(ob) }()
 	f()
 }
 
@@ -348,6 +361,7 @@ type Pool struct {
 	New   func() interface{}
 	real  sync.Pool
 	items []interface{}
+	vcs   []vclock // Config.MapRaces: the clock of the thread that put the item
 	ep    int32
 }
 
@@ -366,12 +380,16 @@ func (p *Pool) Get() interface{} {
 		return nil
 	}
 	if p.ep != epoch {
-		p.ep, p.items = epoch, nil
+		p.ep, p.items, p.vcs = epoch, nil, nil
 	}
 	if n := len(p.items); n > 0 && !PoolMiss {
 		x := p.items[n-1]
 		p.items[n-1] = nil
 		p.items = p.items[:n-1]
+		if s.cfg.MapRaces && len(p.vcs) == n && s.cur != nil {
+			s.cur.vc.join(p.vcs[n-1])
+			p.vcs = p.vcs[:n-1]
+		}
 		return x
 	}
 	if p.New != nil {
@@ -390,7 +408,7 @@ func (p *Pool) Put(x interface{}) {
 		return
 	}
 	if p.ep != epoch {
-		p.ep, p.items = epoch, nil
+		p.ep, p.items, p.vcs = epoch, nil, nil
 	}
 	if b, ok := x.([]byte); ok && !s.cfg.NoPoison {
 		b = b[:cap(b)]
@@ -399,4 +417,11 @@ func (p *Pool) Put(x interface{}) {
 		}
 	}
 	p.items = append(p.items, x)
+	if s.cfg.MapRaces && s.cur != nil {
+		for len(p.vcs) < len(p.items)-1 {
+			p.vcs = append(p.vcs, nil)
+		}
+		p.vcs = append(p.vcs, s.cur.vc.copy())
+		s.cur.vc[s.cur.id]++
+	}
 }
